@@ -374,10 +374,10 @@ var imports = map[string][]string{
 	"C09": {"C11.i", "C16.i"},
 	"C10": {"C12.j"},
 	"C11": {"C12.l", "C12.m", "C12.j", "C10.f", "C10.k", "C10.e"},
-	"C15": {"C17.i", "C13.c", "C17.h", "C03.t"},
+	"C15": {"C17.i", "C13.c", "C17.h", "C03.t", "C03.v"},
 	"C20": {"C02.d", "C05.e", "C12.l", "C18.e"},
 	"C05": {"C06.g", "C09.e"},
-	"C04": {"C06.g", "C03.j"},
+	"C04": {"C06.g", "C03.j", "C01.f", "C01.g"},
 	"C08": {"C19.8"},
 	"C14": {"C03.o", "C03.f"},
 }
